@@ -13,6 +13,7 @@ MCChars    == {0, 1, 255}
 MCColPairs == {<<1, 2>>, <<200, 7>>}
 MCFillCols == {<<0, 9>>}
 MCVgaCols  == {<<7, 1>>, <<2, 15>>}
+MCVgaFill  == {<<14, 15>>}
 
 \* synthetic font: 256 glyphs of gh rows, bpr bytes per row, position-dependent bits
 Fd(gw, gh) == LET bpr == (gw + 7) \div 8 IN [i \in 1..(256 * gh * bpr) |-> (i * 73 + (i \div 7) * 19 + 41) % 256]
@@ -31,12 +32,13 @@ Vga(id, cols, rows) ==
   [id |-> id, cons |-> "vga", w |-> cols, h |-> rows, pitch |-> cols, bpp |-> 0, ci |-> L8,
    gw |-> 1, gh |-> 1, bpr |-> 0, offY |-> 0, clear |-> 32, fd |-> <<>>, pal |-> <<>>]
 
-\* every grid 1..3 x 1..3, both fonts, depths 8 and 16, logo 0/1: ids 1..72
+\* every grid 1..3 x 1..3, both fonts, depths 8 and 16, logo 0/1 (ids 1..72; the full scope takes the 36 of them in
+\* which the logo height alternates with font, depth and grid parity)
 GridFb(cols, rows, gi, bi, offY) ==
   Fb(((((cols - 1) * 3 + rows - 1) * 2 + gi) * 2 + bi) * 2 + offY + 1, cols, rows, IF gi = 0 THEN 8 ELSE 9,
      IF bi = 0 THEN 8 ELSE 16, IF bi = 0 THEN L8 ELSE L565, offY,
      IF (cols + rows) % 2 = 0 THEN 0 ELSE 3, IF rows % 2 = 1 THEN 1 ELSE 0)
-MCFullG == {GridFb(c, r, gi, bi, o) : c \in 1..3, r \in 1..3, gi \in 0..1, bi \in 0..1, o \in 0..1}
+MCFullG == {GridFb(c, r, gi, bi, (gi + bi + c + r) % 2) : c \in 1..3, r \in 1..3, gi \in 0..1, bi \in 0..1}
              \cup {Fb(81, 2, 2, 9, 15, L555, 1, 3, 1), Fb(82, 2, 2, 9, 24, L888, 1, 3, 1), Fb(83, 2, 2, 8, 32, L888, 0, 0, 1),
                    Fb(84, 2, 1, 9, 24, LBGR, 0, 2, 0), Fb(85, 3, 2, 8, 15, L555, 0, 1, 0), Fb(86, 1, 2, 9, 32, LBGR, 1, 5, 0)}
              \cup {Vga(100 + (c - 1) * 3 + r, c, r) : c \in 1..4, r \in 1..3}
